@@ -1,6 +1,6 @@
 (* C01 proofs, second part: connect without the "every declaration compiles" assumption
    (generic in the parse function), multi-atom placeholders, the parser. *)
-From Coq Require Import List NArith ZArith Bool Lia Arith.
+From Coq Require Import List NArith ZArith Bool Lia Arith ZifyBool ZifyN.
 Import ListNotations.
 Require Import Verif.Lib.Wire Verif.Lib.Text Verif.Lib.PathNorm Verif.Lib.Utf8 Verif.Gen.Facts_C01 Verif.Model.C01
   Verif.Proofs.C01.
@@ -61,8 +61,8 @@ Section Connect.
   Proof.
     induction L as [|y L IH]; intros H; simpl; [reflexivity|]. unfold other_key at 1.
     destruct (text_eqb_spec (key y) (key x)) as [E|NE]; simpl.
-    - rewrite (H y (or_introl eq_refl) E). apply IH. intros; apply H; auto.
-    - rewrite IH; [reflexivity|]. intros; apply H; auto.
+    - rewrite (H y (or_introl eq_refl) E). apply IH. intros e He Hk; apply H; [right; exact He|exact Hk].
+    - rewrite IH; [reflexivity|]. intros e He Hk; apply H; [right; exact He|exact Hk].
   Qed.
 
   Lemma last_wins_key_unique l : forall a b,
@@ -269,7 +269,11 @@ Qed.
 
 (* ---------- instances for the facts of the current source *)
 Lemma connect_all_is_with O ds : forall m id, connect_all O m id ds = connect_all_with (parse_pattern O) m id ds.
-Proof. induction ds as [|d ds IH]; intros m id; simpl; [reflexivity|]. rewrite IH. reflexivity. Qed.
+Proof.
+  induction ds as [|d ds IH]; intros m id; [reflexivity|]. cbn [connect_all connect_all_with].
+  change (connect O m id d) with (connect_with (parse_pattern O) m id d).
+  destruct (connect_with (parse_pattern O) m id d) as [m1 st]. rewrite IH. reflexivity.
+Qed.
 
 Lemma dispatch_request_is_with O m method raw :
   dispatch_request O m method raw = dispatch_request_with (match_pat O) m method raw.
@@ -287,9 +291,8 @@ Theorem request_spec_general O ds method raw m sts :
   end.
 Proof.
   intros Hs H. rewrite connect_all_is_with in H. rewrite dispatch_request_is_with.
-  eapply request_spec_with; eauto.
-  - apply parse_pattern_core.
-  - apply match_spec.
+  exact (request_spec_with (parse_pattern O) (parse_core O (Some spec_default_hole)) (match_pat O) (spec_match O)
+           ds method raw m sts (parse_pattern_core O) (match_spec O) Hs H).
 Qed.
 
 (* ---------- multi-atom placeholders *)
@@ -315,7 +318,387 @@ Theorem request_spec_m O ds method raw m sts :
   | OConfigError => SNothing
   end.
 Proof.
-  intros Hs H. unfold spec_request_m. eapply request_spec_with; eauto.
-  - apply parse_pattern_m_core.
-  - apply match_spec_m.
+  intros Hs H.
+  exact (request_spec_with (parse_pattern_m O) (spec_parse_m O) (match_pat_m O) (spec_match_m O)
+           ds method raw m sts (parse_pattern_m_core O) (match_spec_m O) Hs H).
+Qed.
+
+(* ====================================================================== the parser *)
+(* the source text of a piece, and the grammar of a placeholder body
+   [_a-zA-Z][^{}]*(\{[^{}]*\}[^{}]* )* as a two-state checker *)
+Definition piece_src (p : piece) : text :=
+  match p with PLit t => t | PHole b => c_lbrace :: b ++ [c_rbrace] end.
+
+Fixpoint body_chk (inner : bool) (s : text) : bool :=
+  match s with
+  | [] => negb inner
+  | c :: r => if (c =? c_lbrace)%N then (if inner then false else body_chk true r)
+              else if (c =? c_rbrace)%N then (if inner then body_chk false r else false)
+              else body_chk inner r
+  end.
+Definition body_ok (b : text) : bool :=
+  match b with c :: r => name_start c && body_chk false r | [] => false end.
+
+Lemma brace_scan_sound : forall s inner acc body rest,
+  brace_scan s inner acc = Some (body, rest) ->
+  exists mid, body = rev acc ++ mid /\ s = mid ++ c_rbrace :: rest /\ body_chk inner mid = true.
+Proof.
+  induction s as [|c s IH]; intros inner acc body rest H; simpl in H; [discriminate|].
+  destruct (N.eqb_spec c c_lbrace) as [->|NL].
+  - destruct inner; [discriminate|]. destruct (IH _ _ _ _ H) as (mid & -> & -> & Hc).
+    exists (c_lbrace :: mid). simpl. rewrite <- app_assoc. auto.
+  - destruct (N.eqb_spec c c_rbrace) as [->|NR].
+    + destruct inner.
+      * destruct (IH _ _ _ _ H) as (mid & -> & -> & Hc).
+        exists (c_rbrace :: mid). simpl. rewrite <- app_assoc. auto.
+      * injection H as <- <-. exists []. rewrite app_nil_r. auto.
+    + destruct (IH _ _ _ _ H) as (mid & -> & -> & Hc).
+      exists (c :: mid). simpl. rewrite <- app_assoc.
+      destruct (N.eqb_spec c c_lbrace); [contradiction|]. destruct (N.eqb_spec c c_rbrace); [contradiction|]. auto.
+Qed.
+
+Lemma brace_scan_complete : forall mid inner acc rest,
+  body_chk inner mid = true -> brace_scan (mid ++ c_rbrace :: rest) inner acc = Some (rev acc ++ mid, rest).
+Proof.
+  induction mid as [|c mid IH]; intros inner acc rest H; simpl in *.
+  - destruct inner; [discriminate|]. rewrite app_nil_r. reflexivity.
+  - destruct (N.eqb_spec c c_lbrace) as [->|NL].
+    + destruct inner; [discriminate|]. rewrite (IH _ _ _ H). simpl. rewrite <- app_assoc. reflexivity.
+    + destruct (N.eqb_spec c c_rbrace) as [->|NR].
+      * destruct inner; [|discriminate]. rewrite (IH _ _ _ H). simpl. rewrite <- app_assoc. reflexivity.
+      * rewrite (IH _ _ _ H). simpl. rewrite <- app_assoc. reflexivity.
+Qed.
+
+Lemma brace_body_sound s body rest :
+  brace_body s = Some (body, rest) -> s = body ++ c_rbrace :: rest /\ body_ok body = true.
+Proof.
+  destruct s as [|c s]; simpl; [discriminate|]. destruct (name_start c) eqn:Nc; [|discriminate].
+  intros H. apply brace_scan_sound in H. destruct H as (mid & -> & -> & Hc). simpl. rewrite Nc. auto.
+Qed.
+
+Lemma brace_body_complete body rest :
+  body_ok body = true -> brace_body (body ++ c_rbrace :: rest) = Some (body, rest).
+Proof.
+  destruct body as [|c b]; simpl; [discriminate|]. intros H. apply andb_true_iff in H as [-> H].
+  rewrite (brace_scan_complete b false [c] rest H). reflexivity.
+Qed.
+
+(* route_re.search finds something exactly when the text contains a well-formed placeholder *)
+Theorem has_brace_iff s :
+  has_brace s = true <->
+  exists pre body rest, s = pre ++ c_lbrace :: body ++ c_rbrace :: rest /\ body_ok body = true.
+Proof.
+  split.
+  - induction s as [|c s IH]; simpl; [discriminate|]. intros H. apply orb_true_iff in H as [H|H].
+    + apply andb_true_iff in H as [Hc Hb]. apply N.eqb_eq in Hc. subst c.
+      destruct (brace_body s) as [[body rest]|] eqn:E; [|discriminate].
+      apply brace_body_sound in E. destruct E as [-> Hok]. exists [], body, rest. auto.
+    + destruct (IH H) as (pre & body & rest & -> & Hok). exists (c :: pre), body, rest. auto.
+  - intros (pre & body & rest & -> & Hok). induction pre as [|c pre IH]; simpl.
+    + rewrite (brace_body_complete body rest Hok). reflexivity.
+    + rewrite IH. apply orb_true_r.
+Qed.
+
+(* route_re.split loses nothing and invents nothing, and every placeholder piece is well formed *)
+Lemma split_route_src : forall s skip acc,
+  skip <= length s -> flat_map piece_src (split_route s skip acc) = rev acc ++ skipn skip s.
+Proof.
+  induction s as [|c s IH]; intros skip acc Hs; simpl in *.
+  - replace skip with 0 by lia. simpl. reflexivity.
+  - destruct skip as [|k].
+    + destruct (N.eqb_spec c c_lbrace) as [->|NL].
+      * destruct (brace_body s) as [[body rest]|] eqn:E.
+        -- apply brace_body_sound in E. destruct E as [-> _]. cbn [flat_map piece_src].
+           rewrite IH by (rewrite app_length; simpl; lia).
+           replace (S (length body)) with (length (body ++ [c_rbrace])) by (rewrite app_length; simpl; lia).
+           replace (body ++ c_rbrace :: rest) with ((body ++ [c_rbrace]) ++ rest) by (rewrite <- app_assoc; reflexivity).
+           rewrite skipn_app, Nat.sub_diag, skipn_all. simpl. rewrite <- !app_assoc. reflexivity.
+        -- rewrite IH by lia. simpl. rewrite <- app_assoc. reflexivity.
+      * rewrite IH by lia. simpl. rewrite <- app_assoc. reflexivity.
+    + rewrite IH by lia. reflexivity.
+Qed.
+
+Definition piece_wf (p : piece) : Prop := match p with PLit _ => True | PHole b => body_ok b = true end.
+
+Lemma split_route_wf : forall s skip acc, Forall piece_wf (split_route s skip acc).
+Proof.
+  induction s as [|c s IH]; intros skip acc; simpl.
+  - constructor; [exact I|constructor].
+  - destruct skip; [|apply IH].
+    destruct (c =? c_lbrace)%N; [|apply IH].
+    destruct (brace_body s) as [[body rest]|] eqn:E; [|apply IH].
+    apply brace_body_sound in E. destruct E as [_ Hok].
+    constructor; [exact I|]. constructor; [exact Hok|apply IH].
+Qed.
+
+(* route.rsplit('*', 1) *)
+Lemma rsplit_star_none s : rsplit_star s = None -> ~ In c_star s.
+Proof.
+  induction s as [|c s IH]; simpl; [auto|].
+  destruct (rsplit_star s) as [[a b]|]; [discriminate|].
+  destruct (N.eqb_spec c c_star); [discriminate|]. intros _ [H|H]; [congruence|]. apply IH; auto.
+Qed.
+
+Lemma rsplit_star_spec : forall s a b, rsplit_star s = Some (a, b) -> s = a ++ c_star :: b /\ ~ In c_star b.
+Proof.
+  induction s as [|c s IH]; intros a b H; simpl in H; [discriminate|].
+  destruct (rsplit_star s) as [[a' b']|] eqn:E.
+  - injection H as <- <-. destruct (IH _ _ eq_refl) as [-> Hn]. auto.
+  - destruct (N.eqb_spec c c_star) as [->|]; [|discriminate]. injection H as <- <-.
+    split; [reflexivity|]. apply rsplit_star_none. exact E.
+Qed.
+
+(* the remainder: the text after the LAST star, when it is only word characters (plus the
+   newline oddity of the module regex); an empty name declares no remainder *)
+Lemma split_star_spec O r2 r3 rem :
+  split_star O r2 = (r3, rem) ->
+  (r3 = r2 /\ rem = []) \/ (r2 = r3 ++ c_star :: rem /\ ~ In c_star rem /\ word_then_end O rem = true).
+Proof.
+  unfold split_star. destruct (rsplit_star r2) as [[a b]|] eqn:E.
+  - destruct (word_then_end O b) eqn:W; intros H; injection H as <- <-; [|auto].
+    apply rsplit_star_spec in E. destruct E as [-> Hn]. right. auto.
+  - intros H; injection H as <- <-. auto.
+Qed.
+
+(* pieces <-> items *)
+Inductive pieces_items (dflt : option hre) : list piece -> list item -> Prop :=
+| PI_nil : pieces_items dflt [] []
+| PI_empty ps its : pieces_items dflt ps its -> pieces_items dflt (PLit [] :: ps) its
+| PI_lit c t ps its : pieces_items dflt ps its -> pieces_items dflt (PLit (c :: t) :: ps) (Lit (c :: t) :: its)
+| PI_hole body ps its n reg h :
+    split_colon body = (n, reg) ->
+    match reg with Some r => parse_reg r = Some h | None => dflt = Some h end ->
+    name_check n = Ok tt ->
+    pieces_items dflt ps its -> pieces_items dflt (PHole body :: ps) (Hole n h :: its).
+
+Lemma seq_items_sound dflt : forall ps its,
+  seq_items (map (piece_item dflt) ps) = Ok its -> pieces_items dflt ps its.
+Proof.
+  induction ps as [|p ps IH]; intros its H; simpl in H.
+  - injection H as <-. constructor.
+  - destruct (piece_item dflt p) as [oi| | |] eqn:Ep;
+      destruct (seq_items (map (piece_item dflt) ps)) as [l'| | |] eqn:Es; try discriminate;
+      try (destruct oi; discriminate).
+    destruct p as [t|body]; simpl in Ep.
+    + destruct t as [|c t]; injection Ep as <-; injection H as <-; constructor; auto.
+    + destruct (split_colon body) as [n reg] eqn:Ec.
+      destruct (match reg with Some r => parse_reg r | None => dflt end) as [h|] eqn:Eh; [|discriminate].
+      destruct (name_check n) as [[]| | |] eqn:En; try discriminate.
+      injection Ep as <-. injection H as <-.
+      eapply PI_hole; eauto. destruct reg; exact Eh.
+Qed.
+
+Lemma split_colon_spec : forall s n reg, split_colon s = (n, reg) ->
+  ~ In c_colon n /\ match reg with Some r => s = n ++ c_colon :: r | None => s = n end.
+Proof.
+  induction s as [|c s IH]; intros n reg H; simpl in H.
+  - injection H as <- <-. auto.
+  - destruct (N.eqb_spec c c_colon) as [->|NE].
+    + injection H as <- <-. auto.
+    + destruct (split_colon s) as [a b] eqn:E. injection H as <- <-.
+      destruct (IH _ _ eq_refl) as [Hn Hr]. split.
+      * intros [X|X]; [congruence|auto].
+      * destruct b; rewrite Hr; reflexivity.
+Qed.
+
+(* what a successfully parsed pattern denotes: the normalised pattern text is the
+   concatenation of the source texts of its pieces followed by the remainder declaration;
+   literal pieces are literal items, well-formed {..} pieces are placeholders whose name is
+   the text before the first colon (an identifier) and whose language is the regex after it
+   (the default without a colon); group names are pairwise different *)
+Theorem parse_core_sound O dflt src p :
+  parse_core O dflt src = Ok p ->
+  exists r3 rem pieces,
+    ((normalise O src = r3 /\ rem = [])
+     \/ (normalise O src = r3 ++ c_star :: rem /\ ~ In c_star rem /\ word_then_end O rem = true))
+    /\ star p = match rem with [] => None | _ => Some rem end
+    /\ match rem with [] => True | _ => name_check rem = Ok tt end
+    /\ flat_map piece_src pieces = r3 /\ Forall piece_wf pieces
+    /\ pieces_items dflt pieces (items p)
+    /\ has_dup (pat_names p) = false.
+Proof.
+  intros H.
+  assert (E : parse_core O dflt src =
+              let '(r3, rem) := split_star O (normalise O src) in
+              match seq_items (map (piece_item dflt) (split_route r3 0 [])) with
+              | Ok its =>
+                  let st := match rem with [] => Ok None
+                            | _ => match name_check rem with
+                                   | Ok _ => Ok (Some rem) | CompileError => CompileError
+                                   | Unsupported => Unsupported | FactsDrift => FactsDrift end
+                            end in
+                  match st with
+                  | Ok st => let p := mkPat its st in if has_dup (pat_names p) then CompileError else Ok p
+                  | CompileError => CompileError | Unsupported => Unsupported | FactsDrift => FactsDrift
+                  end
+              | CompileError => match rem with [] => CompileError
+                                | _ => match name_check rem with Unsupported => Unsupported | _ => CompileError end end
+              | Unsupported => Unsupported
+              | FactsDrift => FactsDrift
+              end) by reflexivity.
+  rewrite E in H. clear E.
+  destruct (split_star O (normalise O src)) as [r3 rem] eqn:Es.
+  destruct (seq_items (map (piece_item dflt) (split_route r3 0 []))) as [its| | |] eqn:Ei;
+    try discriminate; try (destruct rem; [discriminate|destruct (name_check (n :: rem)); discriminate]).
+  exists r3, rem, (split_route r3 0 []).
+  pose proof (split_star_spec O _ _ _ Es) as Hstar.
+  pose proof (split_route_src r3 0 [] (Nat.le_0_l _)) as Hsrc. simpl in Hsrc.
+  pose proof (split_route_wf r3 0 []) as Hwf.
+  pose proof (seq_items_sound dflt _ _ Ei) as Hpi.
+  destruct rem as [|c rem].
+  - cbv beta iota zeta in H. destruct (has_dup (pat_names (mkPat its None))) eqn:Hd; [discriminate|].
+    injection H as <-. simpl. repeat split; auto.
+    destruct Hstar as [[-> _]|[Hx _]]; auto.
+  - destruct (name_check (c :: rem)) as [[]| | |] eqn:En; try discriminate.
+    cbv beta iota zeta in H. revert H. destruct (has_dup _) eqn:Hd; intros H; [discriminate H|].
+    injection H as <-. simpl. repeat split; auto.
+    destruct Hstar as [[_ X]|Hx]; [discriminate X|]. right. exact Hx.
+Qed.
+
+(* ---------- printing round trip for canonical patterns *)
+Lemma ident_char_plain c : ident_char c = true ->
+  (c <? 128)%N = true /\ c <> c_lbrace /\ c <> c_rbrace /\ c <> c_star /\ c <> c_colon.
+Proof.
+  unfold ident_char, name_start, is_lower, is_upper, is_digit_ascii, c_lbrace, c_rbrace, c_star, c_colon. lia.
+Qed.
+
+Definition lit_char_ok (c : N) : bool :=
+  negb ((c =? c_lbrace)%N || (c =? c_rbrace)%N || (c =? c_star)%N || (c =? c_colon)%N).
+Definition reg_char_ok (c : N) : bool := negb ((c =? c_lbrace)%N || (c =? c_rbrace)%N || (c =? c_star)%N).
+
+Definition ident (n : text) : bool := match n with c :: r => name_start c && forallb ident_char r | [] => false end.
+(* a printable placeholder: an identifier, and either the default language or a regex whose
+   printed text has no brace/star and parses back to it *)
+Definition hole_canon (n : text) (h : hre) : Prop :=
+  ident n = true
+  /\ (h = spec_default_hole
+      \/ (hre_eqb_default h = false /\ forallb reg_char_ok (print_hre h) = true
+          /\ parse_reg (print_hre h) = Some h)).
+(* literals are non-empty, never adjacent, and free of { } * : *)
+Inductive canon_items : bool -> list item -> Prop :=
+| CI_nil b : canon_items b []
+| CI_lit l r : l <> [] -> forallb lit_char_ok l = true -> canon_items true r -> canon_items false (Lit l :: r)
+| CI_hole b n h r : hole_canon n h -> canon_items false r -> canon_items b (Hole n h :: r).
+
+Definition body_of (n : text) (h : hre) : text :=
+  if hre_eqb_default h then n else n ++ c_colon :: print_hre h.
+Lemma print_hole n h : print_item (Hole n h) = c_lbrace :: body_of n h ++ [c_rbrace].
+Proof. unfold print_item, body_of. destruct (hre_eqb_default h); [reflexivity|]. rewrite <- app_assoc. reflexivity. Qed.
+
+Lemma ident_chars n : ident n = true -> n <> [] /\ forallb ident_char n = true /\ name_check n = Ok tt.
+Proof.
+  destruct n as [|c r]; simpl; [discriminate|]. intros H. apply andb_true_iff in H as [Hc Hr].
+  assert (Hi : ident_char c = true) by (unfold ident_char; rewrite Hc; reflexivity).
+  repeat split; [discriminate|rewrite Hi, Hr; reflexivity|].
+  unfold name_check.
+  assert (E : existsb (fun c0 => (128 <=? c0)%N || (c0 =? c_gt)%N) (c :: r) = false).
+  { apply not_true_is_false. intros X. apply existsb_exists in X. destruct X as (x & Hx & Hb).
+    assert (Hix : ident_char x = true).
+    { destruct Hx as [<-|Hx]; [exact Hi|]. rewrite forallb_forall in Hr. auto. }
+    revert Hix Hb. unfold ident_char, name_start, is_lower, is_upper, is_digit_ascii, c_gt. lia. }
+  rewrite E, Hc, Hr. reflexivity.
+Qed.
+
+Lemma body_chk_nobrace s : forallb (fun c => negb ((c =? c_lbrace)%N || (c =? c_rbrace)%N)) s = true -> body_chk false s = true.
+Proof.
+  induction s as [|c s IH]; simpl; [reflexivity|]. intros H. apply andb_true_iff in H as [Hc Hs].
+  apply negb_true_iff, orb_false_iff in Hc. destruct Hc as [-> ->]. auto.
+Qed.
+
+Lemma body_of_ok n h : hole_canon n h -> body_ok (body_of n h) = true.
+Proof.
+  intros [Hid Hh]. destruct (ident_chars n Hid) as (Hne & Hcs & _).
+  assert (Hn : forallb (fun c => negb ((c =? c_lbrace)%N || (c =? c_rbrace)%N)) n = true).
+  { apply forallb_forall. intros c Hc. rewrite forallb_forall in Hcs. specialize (Hcs c Hc).
+    apply ident_char_plain in Hcs. destruct Hcs as (_ & H1 & H2 & _).
+    apply negb_true_iff, orb_false_iff. split; apply N.eqb_neq; assumption. }
+  assert (Hb : forallb (fun c => negb ((c =? c_lbrace)%N || (c =? c_rbrace)%N)) (body_of n h) = true).
+  { unfold body_of. destruct Hh as [->|(Hd & Hr & _)].
+    - exact Hn.
+    - rewrite Hd, forallb_app. rewrite Hn. simpl. apply forallb_forall. intros c Hc.
+      rewrite forallb_forall in Hr. specialize (Hr c Hc). unfold reg_char_ok in Hr.
+      apply negb_true_iff, orb_false_iff in Hr. destruct Hr as [Hr _]. apply negb_true_iff. exact Hr. }
+  destruct n as [|c r]; [congruence|]. simpl in Hid. apply andb_true_iff in Hid as [Hc _].
+  assert (E : body_of (c :: r) h = c :: tl (body_of (c :: r) h)).
+  { unfold body_of. destruct (hre_eqb_default h); reflexivity. }
+  rewrite E in Hb |- *. simpl. rewrite Hc. simpl in Hb. apply andb_true_iff in Hb as [_ Hb].
+  apply body_chk_nobrace. exact Hb.
+Qed.
+
+Lemma split_route_skip : forall a s acc, split_route (a ++ s) (length a) acc = split_route s 0 acc.
+Proof. induction a as [|c a IH]; intros s acc; simpl; [reflexivity|apply IH]. Qed.
+
+Lemma split_route_lit : forall l s acc,
+  forallb lit_char_ok l = true -> split_route (l ++ s) 0 acc = split_route s 0 (rev l ++ acc).
+Proof.
+  induction l as [|c l IH]; intros s acc H; simpl in *; [reflexivity|].
+  apply andb_true_iff in H as [Hc Hl]. unfold lit_char_ok in Hc.
+  apply negb_true_iff in Hc. apply orb_false_iff in Hc as [Hc _]. apply orb_false_iff in Hc as [Hc _].
+  apply orb_false_iff in Hc as [Hc _]. rewrite Hc, (IH _ _ Hl), <- app_assoc. reflexivity.
+Qed.
+
+Lemma split_route_hole body s acc : body_ok body = true ->
+  split_route (c_lbrace :: body ++ c_rbrace :: s) 0 acc = PLit (rev acc) :: PHole body :: split_route s 0 [].
+Proof.
+  intros H. simpl. rewrite (brace_body_complete body s H). do 2 f_equal.
+  replace (body ++ c_rbrace :: s) with ((body ++ [c_rbrace]) ++ s) by (rewrite <- app_assoc; reflexivity).
+  replace (S (length body)) with (length (body ++ [c_rbrace])) by (rewrite app_length; simpl; lia).
+  apply split_route_skip.
+Qed.
+
+Fixpoint exp_pieces (its : list item) (acc : text) : list piece :=
+  match its with
+  | [] => [PLit (rev acc)]
+  | Lit l :: r => exp_pieces r (rev l ++ acc)
+  | Hole n h :: r => PLit (rev acc) :: PHole (body_of n h) :: exp_pieces r []
+  end.
+
+Lemma split_print b its : canon_items b its ->
+  forall acc, split_route (flat_map print_item its) 0 acc = exp_pieces its acc.
+Proof.
+  induction 1 as [b|l r Hne Hl Hr IH|b n h r Hh Hr IH]; intros acc.
+  - reflexivity.
+  - cbn [flat_map print_item exp_pieces]. rewrite (split_route_lit l _ acc Hl). apply IH.
+  - cbn [flat_map exp_pieces]. rewrite print_hole. cbn [app]. rewrite <- app_assoc. cbn [app].
+    rewrite (split_route_hole _ _ acc (body_of_ok n h Hh)), IH. reflexivity.
+Qed.
+
+Lemma split_colon_ident n r : forallb ident_char n = true ->
+  split_colon n = (n, None) /\ split_colon (n ++ c_colon :: r) = (n, Some r).
+Proof.
+  induction n as [|c n IH]; simpl; intros H.
+  - auto.
+  - apply andb_true_iff in H as [Hc Hn]. apply ident_char_plain in Hc. destruct Hc as (_ & _ & _ & _ & Hc).
+    destruct (N.eqb_spec c c_colon); [contradiction|]. destruct (IH Hn) as [-> ->]. auto.
+Qed.
+
+Lemma piece_item_hole n h : hole_canon n h ->
+  piece_item (Some spec_default_hole) (PHole (body_of n h)) = Ok (Some (Hole n h)).
+Proof.
+  intros [Hid Hh]. destruct (ident_chars n Hid) as (_ & Hcs & Hnc). unfold piece_item, body_of.
+  destruct Hh as [->|(Hd & _ & Hp)].
+  - simpl. destruct (split_colon_ident n [] Hcs) as [-> _]. rewrite Hnc. reflexivity.
+  - rewrite Hd. destruct (split_colon_ident n (print_hre h) Hcs) as [_ ->]. rewrite Hp, Hnc. reflexivity.
+Qed.
+
+Lemma seq_items_exp b its : canon_items b its -> forall acc,
+  (b = true -> acc <> []) -> (b = false -> acc = []) ->
+  seq_items (map (piece_item (Some spec_default_hole)) (exp_pieces its acc))
+  = Ok (match acc with [] => its | _ => Lit (rev acc) :: its end).
+Proof.
+  assert (Hrev : forall acc : text, acc <> [] -> exists c t, rev acc = c :: t).
+  { intros acc Ha. destruct (rev acc) as [|c t] eqn:E; [|eauto].
+    apply (f_equal (@rev N)) in E. rewrite rev_involutive in E. simpl in E. congruence. }
+  induction 1 as [b|l r Hne Hl Hr IH|b n h r Hh Hr IH]; intros acc Ht Hf.
+  - simpl. destruct acc as [|c acc]; [reflexivity|].
+    destruct (Hrev (c :: acc) ltac:(discriminate)) as (c' & t & E). rewrite E. reflexivity.
+  - rewrite (Hf eq_refl). cbn [exp_pieces]. rewrite app_nil_r, IH.
+    + destruct (rev l) as [|c t] eqn:E.
+      * apply (f_equal (@rev N)) in E. rewrite rev_involutive in E. simpl in E. congruence.
+      * rewrite <- E, rev_involutive. reflexivity.
+    + intros _ E. apply (f_equal (@rev N)) in E. rewrite rev_involutive in E. simpl in E. congruence.
+    + discriminate.
+  - cbn [exp_pieces map seq_items]. rewrite (piece_item_hole n h Hh), (IH [] ltac:(discriminate) ltac:(reflexivity)).
+    destruct acc as [|c acc]; [reflexivity|].
+    destruct (Hrev (c :: acc) ltac:(discriminate)) as (c' & t & E). rewrite E. reflexivity.
 Qed.
